@@ -217,6 +217,7 @@ func c12r1(c *core.Ctx) {
 }
 
 func c12r2(c *core.Ctx) {
+	boundsBeforeValue(c)
 	p := c.P
 	consts := formatConstants(p)
 	ty, _, _ := convertTypes(p)
@@ -561,4 +562,87 @@ func readableCtorsHoldAValue(c *core.Ctx) {
 		}
 	}
 	c.Check(n > 100, "readable-ctors-hold-a-value", token.NoPos, fmt.Sprintf("%d readable constructors looked at", n), "fewer than 100 readable characteristic constructors found")
+}
+
+// boundsBeforeValue (C12-R2): where library code configures a characteristic — sets its value and its minimum / maximum — the bounds are
+// set first. SetValue clamps against the bounds in force at that moment; the bound setters only assign. With the value first, the
+// value is clamped against the *default* range of the characteristic type and the range the caller asked for is installed
+// afterwards: NewTemperatureSensor(150, 120, 200) stores 100, below its own minimum of 120, and serves it.
+func boundsBeforeValue(c *core.Ctx) {
+	p := c.P
+	n := 0
+	isSetter := func(i ssa.Instruction, names ...string) (ssa.Value, bool) {
+		g := core.Callee(i)
+		if g == nil || !strings.HasSuffix(pkgPathOf(g), "/characteristic") {
+			return nil, false
+		}
+		for _, nm := range names {
+			if cn(g) == nm {
+				return core.Receiver(i), true
+			}
+		}
+		return nil, false
+	}
+	sameObj := func(a, b ssa.Value) bool {
+		if a == b || sameValue(a, b) {
+			return true
+		}
+		// loads of the same field of the same object ( svc.TempSensor.CurrentTemperature )
+		ua, ok1 := a.(*ssa.UnOp)
+		ub, ok2 := b.(*ssa.UnOp)
+		if ok1 && ok2 {
+			fa, ok3 := ua.X.(*ssa.FieldAddr)
+			fb, ok4 := ub.X.(*ssa.FieldAddr)
+			if ok3 && ok4 && fa.Field == fb.Field {
+				return sameObjDeep(fa.X, fb.X, 4)
+			}
+		}
+		return false
+	}
+	for _, f := range libFuncs(p) {
+		if strings.HasSuffix(pkgPathOf(f), "/characteristic") {
+			continue // the generated constructors: bounds first, checked by C15 (and the setters themselves)
+		}
+		var vals, bounds []ssa.Instruction
+		core.Instrs(f, func(i ssa.Instruction) {
+			if _, ok := isSetter(i, "SetValue"); ok {
+				vals = append(vals, i)
+			}
+			if _, ok := isSetter(i, "SetMinValue", "SetMaxValue"); ok {
+				bounds = append(bounds, i)
+			}
+		})
+		for _, v := range vals {
+			rv, _ := isSetter(v, "SetValue")
+			for _, b := range bounds {
+				rb, _ := isSetter(b, "SetMinValue", "SetMaxValue")
+				if !sameObj(rv, rb) {
+					continue
+				}
+				n++
+				c.Check(!reachesAfter(v, b), "bounds-before-value@"+fname(f), posOf(v), "the bounds of the characteristic are set before its value",
+					"in "+fname(f)+" a characteristic's value is set before its minimum / maximum: the value is clamped against the default range of the characteristic type, the requested range is installed afterwards, and the stored value can lie outside it (NewTemperatureSensor(150, 120, 200) stores and serves 100)")
+			}
+		}
+	}
+	c.Count("value_bound_pairs", n)
+}
+
+func sameObjDeep(a, b ssa.Value, d int) bool {
+	if a == b || sameValue(a, b) {
+		return true
+	}
+	if d == 0 {
+		return false
+	}
+	ua, ok1 := a.(*ssa.UnOp)
+	ub, ok2 := b.(*ssa.UnOp)
+	if ok1 && ok2 {
+		fa, ok3 := ua.X.(*ssa.FieldAddr)
+		fb, ok4 := ub.X.(*ssa.FieldAddr)
+		if ok3 && ok4 && fa.Field == fb.Field {
+			return sameObjDeep(fa.X, fb.X, d-1)
+		}
+	}
+	return false
 }
